@@ -66,6 +66,9 @@ func c15Specs() []c15Spec {
 			conns: []c15Conn{{"c0", [][]byte{pgproto.CancelRequest(1, 2)}}, {"c1", [][]byte{st("u1"), pgproto.Query("regtype"), pgproto.Query("usetype")}}, {"c2", [][]byte{st("u2"), pgproto.Query("usetype"), pgproto.Query("int4row")}}}},
 		{name: "S-I", desc: "connection 1's handler waits until connection 2's handler has run (no connection may hold up another one)", dependency: true,
 			conns: []c15Conn{{"c1", [][]byte{st("u1"), pgproto.Query("wait-for-other")}}, {"c2", [][]byte{st("u2"), pgproto.Query("signal-other"), pgproto.Query("1:r,c=T2")}}}},
+		{name: "S-J", desc: "2 connections authenticating at the same time, one with the right and one with a wrong password followed by a pipelined Query (no AuthenticationOk, no command for the one that was not accepted)", auth: true,
+			conns: []c15Conn{{"c1", [][]byte{pgproto.Startup("user", "alice", "database", "db-a"), pgproto.Password("pw-alice"), pgproto.Query("whoami")}},
+				{"c2", [][]byte{pgproto.Startup("user", "bob", "database", "db-b"), pgproto.Cat(pgproto.Password("wrong"), pgproto.Query("whoami"))}}}},
 		{name: "S-G", desc: "2 connections authenticating with cleartext passwords as different users (startup packets and password messages interleave)", auth: true,
 			conns: []c15Conn{{"c1", [][]byte{pgproto.Startup("user", "alice", "database", "db-a"), pgproto.Password("pw-alice"), pgproto.Query("whoami")}},
 				{"c2", [][]byte{pgproto.Startup("user", "bob", "database", "db-b"), pgproto.Password("pw-bob"), pgproto.Query("whoami")}}}},
@@ -311,7 +314,7 @@ func init() {
 		for _, sp := range c15Specs() {
 			bound := 2
 			switch {
-			case tier != "thorough" && (sp.name == "S-D" || sp.name == "S-E"):
+			case tier != "thorough" && (sp.name == "S-D" || sp.name == "S-E" || sp.name == "S-J"):
 				continue
 			case tier != "thorough" && sp.name == "S-H":
 				bound = 1
@@ -324,19 +327,38 @@ func init() {
 		}
 		return out
 	}
+	// C12 schedule part: parameters of concurrently starting connections (S-C: with global parameters; S-G: start-up
+	// packets and password messages of two users interleaving) never leak into each other
 	plans["C12"] = func(tier string) []Plan {
 		bound := 2
 		if tier == "thorough" {
 			bound = -1
 		}
+		var out []Plan
 		for _, sp := range c15Specs() {
-			if sp.name == "S-C" {
+			if sp.name == "S-C" || sp.name == "S-G" {
 				sc := c15Scenario(sp)
 				sc.Property = "C12"
-				return []Plan{{Sc: sc, Bound: bound}}
+				out = append(out, Plan{Sc: sc, Bound: bound})
 			}
 		}
-		return nil
+		return out
+	}
+	// C01 schedule part: two connections authenticating at the same time (both accepted / one rejected)
+	plans["C01"] = func(tier string) []Plan {
+		bound := 2
+		if tier == "thorough" {
+			bound = -1
+		}
+		var out []Plan
+		for _, sp := range c15Specs() {
+			if sp.name == "S-G" || sp.name == "S-J" {
+				sc := c15Scenario(sp)
+				sc.Property = "C01"
+				out = append(out, Plan{Sc: sc, Bound: bound})
+			}
+		}
+		return out
 	}
 }
 
